@@ -59,7 +59,7 @@ TOpen ==
              <<R!IsOrderP(IF HasGeom THEN Keys ELSE <<>>, T.nc, T.sort, T.order) /\ T.order = po, "Order">>,
              \* column i of a result is the electrode described by entry i of the reader's geometry
              <<HasGeom => (G!SitesOnceP(T.sites, -1, h) /\ G!DescribesP(T.gen, T.sites, -1, h)), "Geometry">>,
-             <<HasGeom => (Len(h) = ND /\ \A i \in 1..Len(h) : h[i].ind = po[i]), "GeometryAligned">>,
+             <<HasGeom => (Len(h) = ND /\ [i \in 1..Len(h) |-> h[i].ind] = SubSeq(po, 1, ND)), "GeometryAligned">>,
              <<(HasGeom /\ T.sort) => G!SortedP(h), "GeometrySorted">> >>, 0)
        /\ impl' = Pick(impl, <<
              <<HasGeom => T.order = G!HeaderIndex(T.gen, "shank", T.sites, T.sort, -1) \o [i \in 1..T.nsync |-> ND + i - 1], "raw_channel_order">>,
